@@ -455,7 +455,7 @@ def _has_float(body) -> bool:
 
 def gen_model(rng, *, stratum: str):
     """stratum: exact | float | names | unsupported:<kind> | refclash | boolnum | gennames | samepath | sharedfn |
-    permargs | body | compartment"""
+    permargs | body | compartment | concname"""
     floaty = stratum == "float"
     mk_fn.styles = ["p", "letters"] if stratum == "sharedfn" else (
         ["perm"] if stratum == "permargs" else ["p", "same", "letters", "perm"])
@@ -639,6 +639,16 @@ def gen_model(rng, *, stratum: str):
             "floaty": floaty}
     if stratum == "samepath":
         case["prev"] = gen_model(rng, stratum="exact")["model"]
+    if stratum == "concname":
+        # a component called like the quantity the third-party importer adds for a species written as an amount
+        # (`<species>_conc` = amount / compartment size): finding F-C08-17
+        v0 = rng.choice(vs)
+        model["params"].append([f"{v0}_conc", ["val", rng.choice(["3", "5/2", "7"])]])
+        f = model["rxns"][0]["fn"]
+        f["params"] = f["params"] + ["cpar"]
+        f["args"] = f["args"] + [f"{v0}_conc"]
+        f["body"] = [["ret", ["binop", "Add", f["body"][0][1], ["name", "cpar"]]]] + f["body"][1:]
+        case["finding"] = "F-C08-17"
     if stratum == "compartment":
         # the `compartments` option of `write`: another size, another id, several compartments (the species live in
         # the first one), none at all, an id that is a component name; and the default compartment next to a
@@ -1179,8 +1189,8 @@ def judge_case(ctx, case, R, M):
     for k, v in stats.items():
         ctx.hist[f"numbers {k}"] = ctx.hist.get(f"numbers {k}", 0) + v
     fid = case["finding"]
-    if fid == "F-C08-9":
-        Mv = None  # pysbml refuses booleans as numbers; the model does not predict third-party exceptions
+    if fid in ("F-C08-9", "F-C08-17"):
+        Mv = None  # pysbml refuses booleans as numbers / reuses a component's name; the model does not predict the third party
     ctx.judge(small, Rv, S, Mv, finding=fid, what="export -> import changes names, initial values, derived values, fluxes or derivatives")
 
 
@@ -1351,7 +1361,7 @@ def strata(ctx):
     n = ctx.n(1, 32)
     plan = [("exact", 130 * n), ("float", 80 * n), ("names", 30 * n), ("refclash", 16 * n), ("boolnum", 9 * n),
             ("gennames", 24 * n), ("samepath", 16 * n), ("sharedfn", 26 * n), ("permargs", 24 * n), ("body", 20 * n),
-            ("compartment", 24 * n)]
+            ("compartment", 24 * n), ("concname", 6 * n)]
     plan += [(f"unsupported:{k}", (2 if k.startswith("near:") else 3) * n) for k, _ in UNSUPPORTED]
     return plan
 
